@@ -3,6 +3,7 @@ package chip
 import (
 	"bytes"
 	"crypto/elliptic"
+	"errors"
 	"math/big"
 
 	"verif/sim/core"
@@ -171,6 +172,9 @@ func (c *Chip) doInternalAuthenticate(cmd CAPDU, viaSM bool, ex *Exchange) ([]by
 			s.FillBytes(out[l:])
 		}
 	}
+	if c.AAMutate != nil {
+		out = c.AAMutate(out, cmd.Data)
+	}
 	if len(out) > cmd.Le {
 		ex.Action = "internal-authenticate le-too-small"
 		return nil, 0x6700
@@ -193,4 +197,92 @@ func derInt(v *big.Int) []byte {
 
 func derSig(r, s *big.Int) []byte {
 	return EncTLV(0x30, append(derInt(r), derInt(s)...))
+}
+
+// AAVerifyRSA is the reference verifier for ISO/IEC 9796-2 scheme 1 signatures as used by AA
+// (moduli whose bit length is a multiple of 8): used by oracles to decide whether arbitrary
+// bytes are a valid signature by the key over exactly rnd.
+func AAVerifyRSA(n *big.Int, e int, sig, rnd []byte) bool {
+	klen := (n.BitLen() + 7) / 8
+	if len(sig) == 0 || len(sig) > klen {
+		return false
+	}
+	s := new(big.Int).SetBytes(sig)
+	if s.Cmp(n) >= 0 {
+		return false
+	}
+	f := make([]byte, klen)
+	new(big.Int).Exp(s, big.NewInt(int64(e)), n).FillBytes(f)
+	for len(f) > 1 && f[0] == 0 { // integer-to-octet-string: leading zero octets carry no information
+		f = f[1:]
+	}
+	check := func(f []byte) bool {
+		if f[0] != 0x6A {
+			return false
+		}
+		var hash string
+		tl := 1
+		switch f[len(f)-1] {
+		case 0xBC:
+			hash = "SHA1"
+		case 0xCC:
+			tl = 2
+			switch f[len(f)-2] {
+			case 0x38:
+				hash = "SHA224"
+			case 0x34:
+				hash = "SHA256"
+			case 0x36:
+				hash = "SHA384"
+			case 0x35:
+				hash = "SHA512"
+			default:
+				return false
+			}
+		default:
+			return false
+		}
+		hl := len(Hash(hash, nil))
+		if len(f) < 1+hl+tl {
+			return false
+		}
+		m1 := f[1 : len(f)-hl-tl]
+		d := f[len(f)-hl-tl : len(f)-tl]
+		return bytes.Equal(Hash(hash, append(bytes.Clone(m1), rnd...)), d)
+	}
+	return check(f)
+}
+
+// AAVerifyECDSA: plain r||s or DER, hash by key size, message = rnd.
+func AAVerifyECDSA(curve elliptic.Curve, qx, qy *big.Int, sig, rnd []byte) bool {
+	digest := Hash(ecdsaHashForCurve(curve), rnd)
+	if len(sig) > 0 && len(sig)%2 == 0 {
+		h := len(sig) / 2
+		if ECDSAVerify(curve, qx, qy, digest, new(big.Int).SetBytes(sig[:h]), new(big.Int).SetBytes(sig[h:])) {
+			return true
+		}
+	}
+	if len(sig) > 0 && sig[0] == 0x30 {
+		// trailing bytes after the DER signature do not change (r, s): only the leading SEQUENCE counts
+		ts, err := firstTLV(sig)
+		if err == nil && len(ts) >= 1 && ts[0].Tag == 0x30 {
+			in, err := ParseTLVs(ts[0].Val)
+			if err == nil && len(in) == 2 && in[0].Tag == 2 && in[1].Tag == 2 {
+				r, s := new(big.Int).SetBytes(in[0].Val), new(big.Int).SetBytes(in[1].Val)
+				if len(in[0].Val) > 0 && in[0].Val[0]&0x80 == 0 && len(in[1].Val) > 0 && in[1].Val[0]&0x80 == 0 {
+					return ECDSAVerify(curve, qx, qy, digest, r, s)
+				}
+			}
+		}
+	}
+	return false
+}
+
+func firstTLV(b []byte) ([]TLV, error) {
+	for n := 2; n <= len(b); n++ {
+		if ts, err := ParseTLVs(b[:n]); err == nil && len(ts) == 1 {
+			return ts, nil
+		}
+	}
+	return nil, errors.New("no leading TLV")
 }
